@@ -14,7 +14,7 @@
 //! The data source is a small array-backed `PayloadSource` with 0-2 IPv4
 //! origins (fixed-layout PDUs only; see DESIGN §3 C07 for why the
 //! variable-length PDUs are out of reach).
-//! @jobs 4 @mem_gb 8 @quick_timeout 600 @thorough_timeout 3600 @thorough_mem_gb 40 @thorough_jobs 1
+//! @jobs 4 @mem_gb 8 @quick_timeout 600 @thorough_timeout 3600 @thorough_mem_gb 24 @thorough_jobs 2
 use crate::util::*;
 use rpki::resources::addr::{MaxLenPrefix, Prefix};
 use rpki::resources::asn::Asn;
@@ -332,7 +332,7 @@ fn recv_body_x(pdu_type: Option<u8>, fragment: bool, max_pending: u8,
 #[kani::unwind(3)]
 fn recv_serial_query_unfragmented() { recv_body_x(Some(1), false, 0, 1); }
 
-/// @tier thorough
+/// @tier off
 /// @fn rpki::rtr::server::Connection::recv rpki::rtr::server::Connection::check_version
 ///   rpki::rtr::server::Connection::check_length
 /// @bounds as recv_serial_query_unfragmented with PDU type Reset Query
@@ -359,7 +359,7 @@ fn recv_other_pdu_unfragmented() {
     else { recv_body_x(None, false, 0, 1) }
 }
 
-/// @tier quick
+/// @tier quick thorough
 /// @fn rpki::rtr::server::Connection::check_version rpki::rtr::pdu::Error::new
 ///   rpki::rtr::pdu::Header::read
 /// @bounds every 8-byte header, every version state of the connection (not
@@ -401,7 +401,7 @@ fn version_check_one_step() {
     std::mem::forget(conn);
 }
 
-/// @tier quick
+/// @tier quick thorough
 /// @fn rpki::rtr::server::Connection::check_length rpki::rtr::pdu::Error::new
 /// @bounds every 8-byte header, every expected length (u32); unwind 3
 /// @says a query whose length field differs from the size of its PDU type
